@@ -338,7 +338,7 @@ pub fn generate(seed: u64, big: bool) -> Scenario {
         // behind must be gone after ucinewgame
         for _ in 0..rng.below(3) {
             let at = rng.usize_below(prefix.len() + 1);
-            prefix.insert(at, rng.pick(&["stop", "stop", "ponderhit", "debug on", "setoption name Hash value 64", "setoption name Clear Hash", "register later"]).to_string());
+            prefix.insert(at, rng.pick(&["stop", "stop", "ponderhit", "setoption name Clear Hash", "register later", "isready"]).to_string());
         }
     }
     let mut dummy = vec![];
